@@ -1,6 +1,10 @@
 """C01 Garbled evaluation equals plain evaluation for every circuit."""
+import json
 import os
+import re
 import sys
+
+import vlib
 
 sys.path.insert(0, os.path.dirname(os.path.abspath(__file__)))
 from t1 import run_t1  # noqa: E402  (T1 leaf translator tie, checks/t1.py)
@@ -30,6 +34,26 @@ HIST_THEOREMS = [
     "Mpc.Pool.C01_history_garble_enabled_after_failure",
     "Mpc.Pool.C01_history_double_put_breaks",
 ]
+# the boundaries of "every circuit": table slab / stack-table slice / tweak counter / constant-stack loops
+# (Model/GarbleBig.lean, Proofs/GarbleBig.lean, section "The boundaries of every circuit" of Props/C01.lean)
+EXT_THEOREMS = [
+    "Mpc.C01_driver_paths",
+    "Mpc.C01_rows_are_table_slice",
+    "Mpc.C01_slab_exact",
+    "Mpc.C01_rows_per_kind",
+    "Mpc.C01_tweak_counter_u32",
+    "Mpc.C01_tweak_hash_mod",
+    "Mpc.C01_tweak_wrap_shares",
+    "Mpc.C01_garble_local",
+]
+EXT_REACHED = (["ext_labels_body_2p%d%s" % (b, d) for b in (16, 20) for d in ("_minus1", "", "_plus1")] +
+               ["ext_%s_beyond_2p%d" % (dim, b) for dim in ("labels", "gates", "wires") for b in (16, 20)] +
+               ["ext_kind_%s_after_2p%d_labels" % (k, b) for k in "aoixn" for b in (16, 20)] +
+               ["ext_keysize_16", "ext_keysize_24", "ext_keysize_32", "ext_garblings_tied_full",
+                "ext_garblings_tied_local", "ext_local_steps", "ext_shape_chain", "ext_shape_wide", "ext_shape_fan"])
+# wire reuse: a gate writing one of its own input wires, per gate kind (harness/cmd/c01/main.go addSelfOverwrites)
+SELF_OVERWRITE = (["gate_out_eq_in1_" + k for k in "axon"] + ["gate_out_eq_in0_" + k for k in "axoni"] +
+                  ["gate_out_eq_in0_eq_in1_" + k for k in "axon"])
 HIST_SHAPES = 7
 HIST_CLASSES = ["beforeR", "insideR", "afterR", "insideLabel", "betweenLabels", "lastByte", "badKey"]
 
@@ -47,6 +71,38 @@ def run_hist(ctx, n, seed, tag=""):
         ctx.distinct.add(hashlib.sha1(line.encode()).digest())
 
 
+def replay_request():
+    """bin/check C01 --replay F: (mode, seed, n, case) when F holds a failing case of the ext mode.  The harness derives
+    every case from (tier, seed, case index), so `-only <case>` re-generates and re-runs exactly that case."""
+    if "--replay" not in sys.argv:
+        return None
+    try:
+        f = sys.argv[sys.argv.index("--replay") + 1]
+        f = f if os.path.isabs(f) else os.path.join(vlib.VERIF, f)
+        fl = (json.load(open(f)).get("failure") or {})
+        m = re.match(r"hx-c01 (ext) -seed (\d+) -n (\d+) -only (\d+) -tier \w+$", fl.get("rerun", ""))
+        return (m.group(1), int(m.group(2)), int(m.group(3)), int(m.group(4))) if m else None
+    except Exception:
+        return None
+
+
+def run_ext(ctx, seed, tag="", only=None):
+    """Extreme circuits (harness/cmd/c01/ext.go): table labels / gates / wires on and beyond 2^16 and 2^20, all gate
+    kinds before and after each boundary; oracle on every wire of the real evaluation; tie: whole-garbling digests
+    (full) or row counts + sampled local steps (local) against Model/GarbleBig.lean."""
+    import hashlib
+    extra = ["-only", str(only)] if only is not None else []
+    ops, out, meta = ctx.run_hx("ext", 1000, seed=seed, tag=tag, extra_args=extra)
+    ctx.absorb_meta(meta)
+    if os.path.exists(ops) and os.path.getsize(ops) > 0:
+        ctx.correspond("extreme circuits: R, rows per gate kind, digests of all wire pairs / table rows / evaluated "
+                       "labels (full) or row counts, Compute bits and sampled local gate steps (local) "
+                       "(seed %d%s)" % (seed, tag), ops, out)
+        for line in open(ops, errors="replace"):
+            ctx.distinct.add(hashlib.sha1(line.encode()).digest())
+    return meta
+
+
 def distinct_ops(ctx, ops):
     import hashlib
     for line in open(ops, errors="replace"):
@@ -57,7 +113,7 @@ def distinct_ops(ctx, ops):
 
 
 def run(ctx):
-    ctx.prove("MpcVerif.Props.C01", THEOREMS)
+    ctx.prove("MpcVerif.Props.C01", THEOREMS + EXT_THEOREMS)
     ctx.prove("MpcVerif.Props.C01Hist", HIST_THEOREMS)
     run_t1(ctx, ["C01"])          # label primitives and garbling leaves
     if ctx.tier == "thorough":
@@ -67,6 +123,19 @@ def run(ctx):
     n = 300 if ctx.tier == "quick" else 4000
     seeds = [ctx.seed] if ctx.tier == "quick" else [ctx.seed, ctx.seed + 1000, ctx.seed + 2000]
     if ctx.build_hx():
+        # ---- --replay of one recorded extreme case: exactly that case; a reproduced failure decides the run
+        rq = replay_request()
+        if rq:
+            mode, seed, _, case = rq
+            run_ext(ctx, seed, tag="-replay", only=case)
+            print("replayed %s case %d of seed %d (tier %s): %d oracle failure(s)" % (mode, case, seed, ctx.tier, len(ctx.fails)))
+            for f in ctx.fails[:3]:
+                print("  " + json.dumps({k: v for k, v in f.items() if k not in ("tape", "circuit")})[:700])
+            if ctx.fails:
+                ctx.coverage["rule"] = "replay of one recorded %s case (the full check was not run)" % mode
+                return ctx.finish("Replay: %s case %d of seed %d was re-generated from its seed and re-run on the real "
+                                  "Garble / Eval / Compute; the oracle fails again." % (mode, case, seed))
+            print("the replayed case no longer fails; running the full check")
         for s in seeds:
             ops, out, meta = ctx.run_hx("garble", n, seed=s)
             ctx.absorb_meta(meta)
@@ -75,6 +144,12 @@ def run(ctx):
         nh = 147 if ctx.tier == "quick" else 1470      # multiples of 7 shapes x 7 failure classes
         for s in seeds:
             run_hist(ctx, nh, s)
+        run_ext(ctx, ctx.seed)
+        if ctx.widen:
+            for s in range(ctx.seed + 9000, ctx.seed + 9002):
+                run_ext(ctx, s, tag="-widen")
+                if ctx.fails:
+                    break
         if ctx.widen:
             for s in range(ctx.seed + 8000, ctx.seed + 8004):
                 run_hist(ctx, 4 * nh, s, tag="-widen")
@@ -101,16 +176,35 @@ def run(ctx):
         ctx.oblige("history generator reached every history shape x failure point of Garble (before / inside / "
                    "after R, inside / between input labels, last byte, refused key) with 2 and 3 garblings live",
                    not missing, "not reached: %s" % missing)
-    ctx.coverage["rule"] = ("random well-formed circuits (6 gate mixes, fan-out, in0=in1, wire overwrite), keys of "
+        missing = [k for k in SELF_OVERWRITE if not c.get(k)]
+        ctx.oblige("generator reached gates that write one of their own input wires (out = in1, out = in0, out = in0 = "
+                   "in1) for every gate kind", not missing, "not reached: %s" % missing)
+        missing = [k for k in EXT_REACHED if not c.get(k)]
+        ctx.oblige("extreme-circuit generator reached the 2^16 and 2^20 boundaries of the table slab (one below / on / "
+                   "one above), circuits beyond them in gates and wires, every gate kind after each boundary, all key "
+                   "sizes, both ties", not missing, "not reached: %s" % missing)
+    ctx.coverage["rule"] = ("random well-formed circuits (6 gate mixes, fan-out, in0=in1, wire overwrite, in every third circuit "
+                            "inserted gates of every kind that write one of their own input wires), keys of "
                             "16/24/32 bytes, random/biased tapes; distinct = distinct op lines having at least one "
                             "AND/OR/INV gate; plus garbling histories on one circuit value (mode hist): 7 history "
                             "shapes x 7 failure points of Garble (tape cut before / inside / right after R, inside / "
                             "between input labels, one byte short; refused key size), 2..3 garblings live together, "
                             "evaluated out of order and repeatedly, released in any order, second Release, key "
-                            "buffer refilled in place; every history op line is distinct")
+                            "buffer refilled in place; every history op line is distinct; plus EXTREME circuits (mode ext): "
+                            "chain / layered / random-fan-in circuits whose table labels, gates or wires end one below / "
+                            "on / one above 2^16 and 2^20 (thorough: up to 2^22), repeating gate-kind patterns with all "
+                            "five kinds, with or without two more rounds of all kinds after the boundary; 3 garblings "
+                            "(16/24/32 byte keys, scratch reused) x 3 inputs each, every wire judged; each case is one "
+                            "distinct op line")
     ctx.assumptions += [
         "crypto/aes is an arbitrary function in the theorems; its Lean re-implementation only matters for the byte-exact comparison",
-        "tweak counter modelled as Nat (Go: uint32; circuits with > 2^31 non-free gates are out of scope)",
+        "tweak counter modelled as Nat; the code's uint32 counter equals it mod 2^32 at every gate of every circuit and "
+        "exactly below 2^32 tweaks (C01_tweak_counter_u32; the executed hash reduces the tweak mod 2^32, C01_tweak_hash_mod); "
+        "circuits with >= 2^31 AND gates are not executed (64 GiB of tables), C01_tweak_wrap_shares is the witness of what "
+        "changes there (tweaks repeat; correctness is unaffected, the theorems hold for every H)",
+        "extreme circuits: sizes up to 2^22 table labels / gates / wires are executed; the whole garbling is reproduced "
+        "by the model up to 2^16 (quick) / 2^20 (thorough), beyond that the model reproduces row counts, Compute bits "
+        "and the local steps of sampled gates (C01_garble_local) and the oracle judges every wire on the real code",
         "WF excludes circuits in which a gate overwrites an input wire (the API hands out input labels after garbling)",
         "histories: sync.Pool is a linearizable multiset (Model/Pool.lean, as in C17); which cached scratch Get returns is "
         "not observable - the theorems hold for every choice, the executed model takes the most recently Put one",
@@ -129,4 +223,8 @@ def run(ctx):
         "correctly; a double Put on the error path is refuted by a witness history. Tie: mode hist runs such histories "
         "on the real code and on the model (each call a block of model steps, Garble's real writes), byte for byte; "
         "oracle: a live garbling never changes, live garblings never share buffers, every evaluation decodes to the "
-        "reference bits.")
+        "reference bits.  Boundaries of 'every circuit' (section 2 of Props/C01.lean, Model/GarbleBig.lean): rows of a "
+        "gate = slice [start, start+count) of the stack table with the dropped row zero; the slab is exactly filled and "
+        "each gate's view reads back its table for every circuit; rows per gate kind are fixed by the circuit; uint32 "
+        "tweak counter = Nat counter mod 2^32; the constant-stack loops the driver runs are the model; local "
+        "characterisation of a garbling.  Tie: mode ext on circuits across 2^16 / 2^20 table labels, gates, wires.")
